@@ -63,7 +63,82 @@ def explore_flags(prog, fn, tracked, transfer, visit):
     return len(seen)
 
 
+def check_gcd_sign(rep, prog, fn):
+    """R18h: every value returned by ext_gcd is computed from the absolute values of its arguments: a `return a` / `return b` / `return _a[..]` is
+    reached only after the normalisation `p = (p < 0) ? -p : p` (or with a flag holding p < 0, std::abs, `if (p < 0) p = -p`) of every argument
+    that can flow into it"""
+    if len(fn.param_ids) != 4:
+        return
+    pa, pb = fn.param_ids[0], fn.param_ids[1]
+    cfg = fn.cfg
+    what = 'the gcd returned by ext_gcd is computed from the absolute values of the arguments (it is non-negative)'
+
+    def is_neg_test(c, pv):
+        s_ = c.strip_all()
+        if s_.k == 'BinaryOperator' and s_.op == '<' and ex.var_of(s_.c[0]) == pv and s_.c[1].strip_all().cv == 0:
+            return True
+        if s_.k == 'BinaryOperator' and s_.op == '>' and ex.var_of(s_.c[1]) == pv and s_.c[0].strip_all().cv == 0:
+            return True
+        v = ex.var_of(s_)
+        if v is not None:
+            defs = [rhs for (_d, rhs) in ex.assignments_to(fn, v) if rhs is not None]
+            return bool(defs) and all(is_neg_test(r_, pv) for r_ in defs)
+        return False
+
+    def is_neg_of(e, pv):
+        s_ = e.strip_all()
+        return s_.k == 'UnaryOperator' and s_.op == '-' and ex.var_of(s_.c[0]) == pv
+    norms = {pa: [], pb: []}
+    for d in fn.walk():
+        if d.k == 'BinaryOperator' and d.op == '=' and ex.var_of(d.c[0]) in norms:
+            pv = ex.var_of(d.c[0])
+            r = d.c[1].strip_all()
+            if r.k == 'ConditionalOperator' and is_neg_test(r.cond, pv) and is_neg_of(r.then, pv) and ex.var_of(r.els) == pv:
+                norms[pv].append(d)
+            elif r.k == 'CallExpr' and r.callee and r.callee['name'] in ('abs', 'labs', 'llabs') and r.args() and ex.var_of(r.args()[0]) == pv:
+                norms[pv].append(d)
+            elif is_neg_of(r, pv):
+                # if (p < 0) p = -p;
+                conds = ex.ast_conditions(d)
+                if conds and is_neg_test(conds[0][0], pv) and conds[0][1]:
+                    norms[pv].append(conds[0][0].enclosing('IfStmt') or d)
+    # local arrays / variables fed from the parameters
+    feeds = {}
+    for d in fn.walk():
+        if d.k == 'BinaryOperator' and d.op == '=':
+            l = d.c[0].strip_all()
+            rv = ex.var_of(d.c[1])
+            if rv in (pa, pb):
+                tgt = ex.var_of(l.c[0]) if l.k == 'ArraySubscriptExpr' and l.c else ex.var_of(l)
+                if tgt is not None and tgt not in (pa, pb):
+                    feeds.setdefault(tgt, []).append((d, rv))
+    n = 0
+    for r in ex.returns_of(fn):
+        if not r.c:
+            continue
+        e = r.c[0].strip_all()
+        srcs = []
+        v = ex.var_of(e.c[0]) if e.k == 'ArraySubscriptExpr' and e.c else ex.var_of(e)
+        if v in (pa, pb):
+            srcs = [(r, v)]
+        elif v in feeds:
+            srcs = feeds[v]
+        else:
+            continue
+        n += 1
+        bad = [(site, pv) for (site, pv) in srcs if not any(cfg.dominates(nm, site) for nm in norms[pv])]
+        if bad:
+            site, pv = bad[0]
+            rep.violation('R18h', r, fn, what, '`%s` can carry the raw argument %s (line %d is reached without `%s = |%s|`): for a negative argument the returned '
+                          '"gcd" is negative' % (r.text(30), prog.vars[pv]['name'], site.line, prog.vars[pv]['name'], prog.vars[pv]['name']),
+                          key='R18h|%s|raw-%s' % (fn.g, prog.vars[pv]['name']))
+        else:
+            rep.ok('R18h', r, fn, what, 'every argument flowing into `%s` was replaced by its absolute value first' % r.text(30))
+    return n
+
+
 def check_ext_gcd(rep, prog, fn):
+    check_gcd_sign(rep, prog, fn)
     what = 'sign flags are paired with the coefficients they belong to (x with the sign of a, y with the sign of b)'
     if len(fn.param_ids) != 4:
         rep.undecided('R18a', fn.body, fn, what, 'ext_gcd does not have the signature (a, b, x, y)')
@@ -799,6 +874,7 @@ def run(rep, tier):
     rep.rule('R18e', 'get_mult_inverse contract', floor=1)
     rep.rule('R18f', 'trial division bound includes the square root', floor=1)
     rep.rule('R18g', 'dot-product accumulator reduced in every step', floor=1)
+    rep.rule('R18h', 'ext_gcd returns a value computed from absolute values', floor=3)
     tus = [env.witness_tu()]
     if tier == 'thorough':
         tus += [t for t in env.repo_tus() if 'fp' in os.path.basename(t)]
@@ -814,7 +890,7 @@ def run(rep, tier):
         pp = env.extract([pos], 'full', ('first:-I' + os.path.join(env.WITNESS, 'positive', 'broken_include2'),))[pos]
         prep = type(rep)(rep.prop, rep.tier)
         run_on(prep, pp)
-        for r in ('R18a', 'R18b', 'R18c', 'R18d', 'R18e', 'R18f', 'R18g'):
+        for r in ('R18a', 'R18b', 'R18c', 'R18d', 'R18e', 'R18f', 'R18g', 'R18h'):
             rep.positive(r, 'witness/positive/c18_fp.cc', any(i.status == 'violation' and i.rule == r for i in prep.instances.values()))
     except env.AnalysisBroken as e:
         rep.analysis_broken('positive example c18_fp.cc does not parse: ' + str(e)[:300])
